@@ -99,8 +99,13 @@ def crv(r):
     raise ValueError(k)
 
 
+def cell(f):
+    """a CSV cell is a string; older replay files hold lists of bytes"""
+    return f if isinstance(f, str) else bytes(f).decode("utf-8", "replace")
+
+
 def crecs(m):
-    return "[" + "; ".join("[" + "; ".join(zl(f) for f in r) + "]" for r in m) + "]"
+    return "[" + "; ".join("[" + "; ".join(zl(list(cell(f).encode("utf-8"))) for f in r) + "]" for r in m) + "]"
 
 # ---------------------------------------------------------------- arr.ai source
 
@@ -117,6 +122,8 @@ def src_str(cps):
             out.append("\\n")
         elif ch == "\t":
             out.append("\\t")
+        elif c < 32 or c == 127:
+            out.append("\\x%02x" % c)
         else:
             out.append(ch)
     return '"' + "".join(out) + '"'
@@ -167,7 +174,7 @@ def src_bytes(bs):
 
 
 def src_matrix(m):
-    return "[" + ", ".join("[" + ", ".join(src_str(f) for f in r) + "]" for r in m) + "]"
+    return "[" + ", ".join("[" + ", ".join(src_str([ord(ch) for ch in cell(f)]) for f in r) + "]" for r in m) + "]"
 
 
 CODEC = {
@@ -230,6 +237,51 @@ def o_val(o):
     return None if t is None else "(OV %s)" % t
 
 
+def dense(d, attr):
+    """members of a dense zero-based sequence dump in index order, or None"""
+    if "s" not in d:
+        return None
+    items = []
+    for m in d["s"]:
+        t = m.get("t")
+        if not t or len(t) != 2 or t[0][0] != "@" or t[1][0] != attr or "n" not in t[0][1]:
+            return None
+        items.append((int(float(t[0][1]["n"])), t[1][1]))
+    items.sort(key=lambda p: p[0])
+    if [i for i, _ in items] != list(range(len(items))):
+        return None
+    return [x for _, x in items]
+
+
+def o_mat(o):
+    """observation of csv.decode -> Coq omat term: cells as UTF-8 bytes (None = not a matrix of strings)"""
+    if o is None or o.get("st") == "timeout":
+        return None
+    if o["st"] == "err":
+        return "OMErr"
+    if o["st"] == "panic":
+        return "OMPanic"
+    rows = dense(o["val"], "@item")
+    if rows is None:
+        return None
+    out = []
+    for r in rows:
+        cells = dense(r, "@item")
+        if cells is None:
+            return None
+        rec = []
+        for c in cells:
+            chars = dense(c, "@char")
+            if chars is None or any("n" not in x for x in chars):
+                return None
+            try:
+                rec.append(zl(list("".join(chr(int(float(x["n"]))) for x in chars).encode("utf-8"))))
+            except Exception:
+                return None
+        out.append("[" + "; ".join(rec) + "]")
+    return "(OM [" + "; ".join(out) + "])"
+
+
 def o_json(o, codec):
     """observation of an encoder -> (Coq ojson term | None, parsed python document | None)"""
     if o is None or o.get("st") == "timeout":
@@ -268,7 +320,18 @@ ALPHA = ["a", "b", "z", "0", " ", "é", "世", "😀", '"', "\\", "\n", "/", "<"
 KEYS = ["a", "b", "s", "k1", "é", "x y", "", "@", "{||}"]
 
 
-def gen_string(rng, maxlen=3, alpha=ALPHA):
+# strings whose first/last character is invisible or special to a text layer, and strings that read as
+# another YAML/JSON type when written without quotes
+TRICKY = ["\ufeff", "\ufeffa", "a\ufeff", "\u200b", "\x00", "a\x00b", " a", "a ", " ", "  ", "\t", "a\tb", "true", "false", "null", "~",
+          "yes", "no", "on", "off", "1", "1.5", "-0", "0x10", "1e3", ".5", "1_000", "0o7", "010", "+1", ".inf", ".nan", "2001-01-01",
+          "-", "- a", "a: b", "a #b", "#a", ":", "?", "? a", "[", "]", "{", "}", "[a]", "{a: 1}", ",", "'", "''", '"', '""', "'a'",
+          "*x", "&x", "!x", "!!str a", "|", ">", "|-", "%a", "@a", "`a", "\\", "\\n", "a\nb", "a\n", "\r", "a\rb", "\x7f", "\ufffd",
+          "\ufffe", "\U0010ffff", "é", "e\u0301", "<<", "=", "---", "...", "--- a", "a\\", "{||}", "@", "@item", "\x1b"]
+
+
+def gen_string(rng, maxlen=3, alpha=ALPHA, tricky=0.2):
+    if rng.random() < tricky:
+        return rng.choice(TRICKY)
     return "".join(rng.choice(alpha) for _ in range(rng.randrange(maxlen + 1)))
 
 
@@ -277,7 +340,8 @@ def gen_num2(rng):
     if r < 0.6:
         return rng.randrange(-6, 20)                       # small ints and halves
     if r < 0.8:
-        return 2 * rng.choice([0, 1, -1, 2 ** 31, 2 ** 53 - 1, -(2 ** 53 - 1), 10 ** 6, 123456789012])
+        return 2 * rng.choice([0, 1, -1, 2 ** 31, 2 ** 31 - 1, -2 ** 31 - 1, 2 ** 32, 2 ** 32 + 1, 2 ** 52, 2 ** 53 - 1, 2 ** 53 - 2,
+                               -(2 ** 53 - 1), 10 ** 6, 123456789012, 10 ** 15, 999999999999999])
     return rng.randrange(-2 ** 40, 2 ** 40)
 
 
@@ -294,7 +358,7 @@ def gen_doc(rng, depth, empty_key_p=0.03, alpha=ALPHA):
         if k == 1:
             return rng.random() < 0.5
         if k in (2, 3):
-            return num_of2(gen_num2(rng))
+            return -0.0 if rng.random() < 0.04 else num_of2(gen_num2(rng))
         if k == 4:
             return gen_string(rng, alpha=alpha)
         if k == 5:
@@ -311,7 +375,9 @@ def gen_doc(rng, depth, empty_key_p=0.03, alpha=ALPHA):
 
 def gen_float_doc(rng, depth):
     """documents with numbers outside the model (implementation-side oracle only)"""
-    nums = [0.1, 1e21, -2.5e-7, 2 ** 53 + 2, 1.7976931348623157e308, 3.141592653589793, 1e-320, 123456789.125, -0.0, 1 / 3]
+    nums = [0.1, 1e21, 1e20, -2.5e-7, 1e-6, 1e-7, 2 ** 53 - 1, 2 ** 53, 2 ** 53 + 1, 2 ** 53 + 2, -(2 ** 53), 2 ** 63 - 1, 2 ** 63, 2 ** 64,
+            -2 ** 63, 1.7976931348623157e308, 3.141592653589793, 1e-320, 5e-324, 123456789.125, -0.0, 1 / 3, 0.30000000000000004,
+            4294967296.5, 1e15 + 0.5]
     r = rng.random()
     if depth <= 0 or r < 0.5:
         return rng.choice(nums) if rng.random() < 0.7 else gen_string(rng, 4, ALPHA + [" ", " ", "\x01", "\x7f"])
@@ -404,15 +470,34 @@ def gen_wire_safe(rng, depth):
         return ["tup", []]
     if r < 0.7:
         return ["arr", 0, [gen_wire_safe(rng, depth - 1) for _ in range(rng.randrange(1, 4))]]
-    names = rng.sample(["a", "b", "s", "x", "k1", "é"], rng.randrange(1, 4))
+    names = rng.sample(["a", "b", "s", "x", "k1", "é", " a", "a ", "\ufeffa", "@x", "a.b", "\u200b"], rng.randrange(1, 4))
     return ["tup", [[n, gen_wire_safe(rng, depth - 1)] for n in sorted(names)]]
 
 
-CSV_ALPHA = [97, 98, 34, 44, 10, 13, 32, 92, 46, 9]
+CSV_ALPHA = ["a", "b", '"', ",", "\n", "\r", " ", "\\", ".", "\t"]
+# characters that are invisible, special to spreadsheets/parsers or special to encoding/csv when they
+# come first (or last) in a cell; cell (0,0) is also the first thing in the document (byte order mark!)
+CSV_SPECIAL = ["\ufeff", "\u200b", "\x00", "\u0085", "\u00a0", "\u2028", "\u3000", "\ufffd", "\ufffe", "\u0301", "😀", "\x7f",
+               "#", ";", "'", "\t", "\v", "\f", " ", '"', "\\", ".", "=", "-", "+", "@", "\u200e", "\u2060", "\x1a", "\x1b"]
 
 
 def gen_field(rng, maxlen=4):
-    return [rng.choice(CSV_ALPHA) for _ in range(rng.randrange(maxlen + 1))]
+    r = rng.random()
+    plain = lambda n: "".join(rng.choice(CSV_ALPHA) for _ in range(rng.randrange(n + 1)))
+    if r < 0.38:
+        return plain(maxlen)
+    if r < 0.60:                                  # special first character (possibly doubled)
+        c = rng.choice(CSV_SPECIAL)
+        return c * rng.choice([1, 1, 1, 2]) + plain(2)
+    if r < 0.70:                                  # special last character
+        return plain(2) + rng.choice(CSV_SPECIAL)
+    if r < 0.78:                                  # quotes only
+        return '"' * rng.randrange(1, 4)
+    if r < 0.86:                                  # leading / trailing / only spaces
+        return rng.choice([" ", "  ", " a", "a ", " a ", "\ta", "a\t", " \"", "\" "])
+    if r < 0.91:
+        return ""
+    return "".join(rng.choice(CSV_SPECIAL + ["é", "世", "a", ","]) for _ in range(rng.randrange(1, 4)))
 
 
 def gen_matrix(rng):
@@ -420,13 +505,30 @@ def gen_matrix(rng):
     w = rng.randrange(1, 4)
     h = rng.randrange(0, 4)
     m = [[gen_field(rng) for _ in range(w)] for _ in range(h)]
+    x = rng.random()
+    if m and x < 0.35:                            # the first cell of the document begins with a special character
+        first = ["\ufeff"] * 10 + ["\u200b", "\x00", " "] * 3 + ["\t", "\u00a0"] * 2 + CSV_SPECIAL
+        m[0][0] = rng.choice(first) * rng.choice([1, 1, 2]) + rng.choice(["", "", "a", "id", ",", " "])
+    elif m and x < 0.45 and w > 1:
+        m[0][0] = ""                              # first cell empty
+    if m and rng.random() < 0.15:                 # ... and the last cell of the document ends with one
+        m[-1][-1] = rng.choice(["", "a", "a,"]) + rng.choice(["\ufeff", "\u200b", "\x00", " ", "\t", "\n", "\r", "\u00a0", "\x1a"] + CSV_SPECIAL[:12])
     if r < 0.08 and m:
         m.insert(rng.randrange(len(m) + 1), [])
     elif r < 0.16 and m:
         m[rng.randrange(len(m))] = [gen_field(rng) for _ in range(w + 1)]
     elif r < 0.2:
-        m = [[[]] for _ in range(rng.randrange(1, 3))]
+        m = [[""] for _ in range(rng.randrange(1, 3))]
     return m
+
+
+def gen_csv_text(rng):
+    """input for the decoder alone: mostly well-formed lines, with special first bytes"""
+    pieces = CSV_ALPHA + CSV_SPECIAL[:8] + ["é", '""', '"a"', "\r\n"]
+    t = "".join(rng.choice(pieces) for _ in range(rng.randrange(0, 9)))
+    if rng.random() < 0.3:
+        t = rng.choice(CSV_SPECIAL[:6]) + t
+    return t
 
 
 def gen_cases(rng, tier):
@@ -448,12 +550,19 @@ def gen_cases(rng, tier):
                    ["tup", [["a", ["num", 2]]]], ["tup", [["a", ["str", 0, [97]]]]], ["tup", [["s", ["num", 2]]]],
                    ["tup", [["a", ["num", 2]], ["b", ["num", 4]]]], ["tup", [["@", ["num", 2]], ["@item", ["num", 4]]]]]):
             add({"kind": "enc", "codec": codec, "strict": True, "rv": r})
-    for z2 in (1, -1, 74, 0, 2 * (2 ** 53 - 1), -4, 3):
+    for z2 in (1, -1, 74, 0, 2 * (2 ** 53 - 1), -4, 3, 2 * 2 ** 31, 2 * (2 ** 31 - 1), 2 * 2 ** 32, 2 * (2 ** 32 + 1), 2 * 2 ** 52,
+               2 * (2 ** 53 - 2), 2 * (2 ** 52 + 1), 2 * 2 ** 53):
         add({"kind": "bits_set", "n2": z2})
-    for s in ([-2], [0, 10, 104], [0, 1, 2], [], [1], [-2, 0]):
+    for s in ([-2], [0, 10, 104], [0, 1, 2], [], [1], [-2, 0], [62, 64, 66], [0, 104], [102, 104], [2 * z for z in range(53)]):
         add({"kind": "bits_mask", "elems2": s})
-    for m in ([], [[[97], [98]], [], [[99]]], [[[]]], [[[97, 13, 10, 98]]], [[[97], [98]], [[99]]], [[[97, 34, 98], [32]]]):
+    for z in (0, 1, 2 ** 31, 2 ** 32 - 1, 2 ** 32 + 1, 2 ** 52 + 1, 2 ** 53 - 1):
+        add({"kind": "bits_rt", "n": z})
+    for m in ([], [["a", "b"], [], ["c"]], [[""]], [["a\r\nb"]], [["a", "b"], ["c"]], [['a"b', " "]],
+              [["\ufeffid", "name"], ["1", "x"]], [["\ufeff"]], [["\ufeff\ufeffa", ""], ["", "b"]], [["\x00", "\u200b"], [" a ", '"']],
+              [["", "a"], ["b", ""]], [['""', "\u00a0x"], ["\\.", "#"]]):
         add({"kind": "csv", "m": m})
+    for t in ("\ufeffa,b\n", "\ufeff\n", "a,\ufeffb\n\x00,c\n"):
+        add({"kind": "csv_dec", "inp": t})
     for r in (["set", True, [["num", 2], ["num", 4]]], ["arr", 0, [["num", 2], None, ["num", 6]]], ["arr", 1, [["num", 2]]],
               ["str", 1, [98, 99]], ["dict", False, [[["str", 0, [97]], ["num", 2]]]], ["bytes", 0, [97, 98]],
               ["tup", [["{||}", ["num", 2]]]], ["tup", [["{||}", ["arr", 0, [["num", 2]]]]]], ["str", 0, [97, -1, 98]]):
@@ -463,8 +572,10 @@ def gen_cases(rng, tier):
     add({"kind": "impl", "what": "yaml_nonstring_key"})
     add({"kind": "impl", "what": "wire_nonfinite"})
     add({"kind": "impl", "what": "yaml_leading_newline"})
+    add({"kind": "impl", "what": "yaml_uint64"})
+    add({"kind": "impl", "what": "yaml_merge_key"})
 
-    for _ in range(180 * n):
+    for _ in range(150 * n):
         codec = "json" if rng.random() < 0.7 else "yaml"
         strict = rng.random() < 0.7
         alpha = ALPHA if codec == "json" else ALPHA[:8]
@@ -476,7 +587,7 @@ def gen_cases(rng, tier):
             add({"kind": "round", "codec": codec, "strict": strict, "doc": d})
         else:
             add({"kind": "enc", "codec": codec, "strict": strict, "rv": rv_of_doc(d, strict)})
-    for _ in range(140 * n):
+    for _ in range(110 * n):
         codec = "json" if rng.random() < 0.75 else "yaml"
         add({"kind": "enc", "codec": codec, "strict": rng.random() < 0.75, "rv": gen_rv(rng, rng.randrange(1, 4))})
     for _ in range(40 * n):
@@ -494,15 +605,13 @@ def gen_cases(rng, tier):
             add({"kind": "bits_mask", "elems2": rng.choice([[-2, 4], [1], [2, -2], [3, 4]])})
         if r < 0.5:
             add({"kind": "bits_rt", "n": rng.randrange(0, 2 ** 53)})
-    for _ in range(90 * n):
+    for _ in range(110 * n):
         add({"kind": "csv", "m": gen_matrix(rng)})
     for _ in range(40 * n):
-        add({"kind": "csv_dec", "inp": [rng.choice(CSV_ALPHA) for _ in range(rng.randrange(0, 9))]})
-    for _ in range(10 * n):
-        add({"kind": "csv_uni", "m": [[gen_string(rng, 3, ALPHA + [" ", "　", ","]) for _ in range(2)] for _ in range(rng.randrange(1, 3))]})
-    for _ in range(80 * n):
+        add({"kind": "csv_dec", "inp": gen_csv_text(rng)})
+    for _ in range(70 * n):
         add({"kind": "wire", "rv": gen_wire_safe(rng, rng.randrange(1, 4))})
-    for _ in range(50 * n):
+    for _ in range(45 * n):
         add({"kind": "wire", "rv": gen_rv(rng, rng.randrange(1, 3), wire=True)})
     for _ in range(40 * n):
         d = gen_doc(rng, 2, empty_key_p=0)
@@ -518,7 +627,7 @@ def gen_cases(rng, tier):
             for strict in (True, False):
                 add({"kind": "round", "codec": "json", "strict": strict, "doc": d})
                 add({"kind": "enc", "codec": "json", "strict": strict, "rv": rv_of_doc(d, strict)})
-        fields = [[], [97], [34], [44], [10], [13], [32], [13, 10], [97, 34]]
+        fields = ["", "a", '"', ",", "\n", "\r", " ", "\r\n", 'a"', "\ufeff", "\x00", "\u00a0"]
         for a in fields:
             for b in fields:
                 add({"kind": "csv", "m": [[a, b]]})
@@ -558,7 +667,8 @@ def sources(c):
         m = "[" + ", ".join("[" + ", ".join(src_str([ord(ch) for ch in f]) for f in r) + "]" for r in c["m"]) + "]"
         return [("a", "eval", {"src": m}), ("b", "eval", {"src": "//encoding.csv.decode(//encoding.csv.encode(%s))" % m})]
     if k == "csv_dec":
-        return [("a", "eval", {"src": "//encoding.csv.decode(%s)" % src_bytes(c["inp"])})]
+        inp = c["inp"].encode("utf-8") if isinstance(c["inp"], str) else bytes(c["inp"])
+        return [("a", "eval", {"src": "//encoding.csv.decode(%s)" % src_bytes(inp)})]
     if k == "wire":
         return [("a", "c13wire", {"src": src_rv(c["rv"])})]
     if k == "wire_dec":
@@ -566,6 +676,10 @@ def sources(c):
     if k == "impl":
         if c["what"] == "yaml_nonstring_key":
             return [("a", "eval", {"src": "//encoding.yaml.decode('1: a')"}), ("b", "eval", {"src": "//encoding.yaml.decode('\"1\": a')"})]
+        if c["what"] == "yaml_uint64":
+            return [("a", "eval", {"src": "//encoding.yaml.encode(//encoding.yaml.decode('9223372036854775808'))"})]
+        if c["what"] == "yaml_merge_key":
+            return [("a", "eval", {"src": "//encoding.yaml.decode(//encoding.yaml.encode({\"<<\": 1}))"})]
         if c["what"] == "yaml_leading_newline":
             return [("a", "eval", {"src": "//encoding.yaml.decode(//encoding.yaml.encode((s: \"\\nz\")))"})]
         return [("a", "c13wire", {"src": "1/0"})]
@@ -581,6 +695,20 @@ def wire_obs(o):
     return {"st": o.get("st")}
 
 
+def contains_fn(r):
+    return isinstance(r, list) and (r[:1] == ["fn"] or any(contains_fn(x) for x in r))
+
+
+def multi_dict_with_fn(r):
+    """a multi-valued dict holding a function: whether the duplicate key or the function (not a data value,
+    outside the model) is met first depends on the enumeration order"""
+    if not isinstance(r, list):
+        return False
+    if r[:1] == ["dict"] and r[1] and contains_fn(r[2]):
+        return True
+    return any(multi_dict_with_fn(x) for x in r)
+
+
 def coq_case(c, obs):
     """Coq case13 term, or None when the case is checked on the implementation side only"""
     k = c["kind"]
@@ -592,6 +720,8 @@ def coq_case(c, obs):
         j, o = cjson(c["doc"]), o_val(b)
         return None if j is None or o is None else "(KRound %s %s %s)" % (cbool(c["strict"]), j, o)
     if k == "enc":
+        if multi_dict_with_fn(c["rv"]):
+            return None
         o, _ = o_json(a, c["codec"])
         return None if o is None else "(KEnc %s %s %s)" % (cbool(c["strict"]), crv(c["rv"]), o)
     if k == "bits_set":
@@ -618,11 +748,12 @@ def coq_case(c, obs):
             enc = "(OB %s)" % zl(list(bs))
         else:
             enc = "OBErr" if a["st"] == "err" else "OBPanic"
-        o = o_val(b)
+        o = o_mat(b)
         return None if o is None else "(KCsv %s %s %s)" % (crecs(c["m"]), enc, o)
     if k == "csv_dec":
-        o = o_val(a)
-        return None if o is None else "(KCsvDec %s %s)" % (zl(c["inp"]), o)
+        o = o_mat(a)
+        inp = c["inp"].encode("utf-8") if isinstance(c["inp"], str) else bytes(c["inp"])
+        return None if o is None else "(KCsvDec %s %s)" % (zl(list(inp)), o)
     return None
 
 
@@ -637,7 +768,7 @@ def impl_oracle(run, c, obs):
         good = b is not None and b.get("st") == "ok" and canon(b["val"]) == canon(a["val"])
         if not good:
             rec["oracle"] = "decode(encode(decode d)) = decode d on the implementation's own values"
-            sig = "q_json_key_unchecked" if has_empty_key(c["doc"]) else ("q_yaml_leading_newline_lost" if c["codec"] == "yaml" and leading_nl(c["doc"]) else None)
+            sig = "q_json_key_unchecked" if has_empty_key(c["doc"]) and run.finding_for("q_json_key_unchecked") else yaml_text_sig(c)
             run.classify_failure(sig, rec)
         return True, True
     if k == "bits_rt":
@@ -659,6 +790,13 @@ def impl_oracle(run, c, obs):
                 run.classify_failure("q_yaml_nonstring_keys_stringified", rec)
             else:
                 run.corr_breaks.append({"what": "known finding q_yaml_nonstring_keys_stringified no longer reproduces", **rec})
+        elif c["what"] in ("yaml_uint64", "yaml_merge_key"):
+            sig = {"yaml_uint64": "q_yaml_uint64_wrapped", "yaml_merge_key": "q_yaml_merge_key_unquoted"}[c["what"]]
+            if a and a.get("st") == "err":
+                rec["oracle"] = "yaml decode(encode(decode d)) = decode d / decode(encode v) = v"
+                run.classify_failure(sig, rec)
+            else:
+                run.corr_breaks.append({"what": "known finding %s no longer reproduces" % sig, **rec})
         elif c["what"] == "yaml_leading_newline":
             want = {"t": [["s", {"s": [{"t": [["@", {"n": "0"}], ["@char", {"n": "10"}]]}, {"t": [["@", {"n": "1"}], ["@char", {"n": "122"}]]}], "c": 2}]]}
             if a and a.get("st") == "ok" and canon(a["val"]) != canon(want):
@@ -674,6 +812,15 @@ def impl_oracle(run, c, obs):
                 run.corr_breaks.append({"what": "known finding q_wire_nonfinite_panics no longer reproduces", **rec})
         return True, False
     return False, False
+
+
+def csv_ok_py(m):
+    """python twin of Sys/Csv.v csv_ok"""
+    m = [[cell(f) for f in r] for r in m]
+    if not m:
+        return True
+    w = len(m[0])
+    return w > 0 and all(len(r) == w for r in m) and not any("\r\n" in f for r in m for f in r) and (w != 1 or all(r != [""] for r in m))
 
 
 def has_empty_key(d):
@@ -732,7 +879,45 @@ def leading_nl(x):
     return False
 
 
-def run_cases(run, vh, cases, shard=400):
+def has_merge_key(x):
+    """the string "<<" used as a mapping key, at any depth (document or value)"""
+    if isinstance(x, dict):
+        return any(k == "<<" or has_merge_key(v) for k, v in x.items())
+    if isinstance(x, list):
+        if len(x) == 3 and x[0] == "dict":
+            return any((k[0] == "str" and k[2] == [60, 60]) or has_merge_key(v) for k, v in x[2])
+        return any(has_merge_key(y) for y in x)
+    return False
+
+
+def has_uint64(x):
+    """an integer that yaml.v3 can only hold as uint64"""
+    if isinstance(x, bool):
+        return False
+    if isinstance(x, int):
+        return 2 ** 63 <= x < 2 ** 64
+    if isinstance(x, dict):
+        return any(has_uint64(v) for v in x.values())
+    if isinstance(x, list):
+        return any(has_uint64(y) for y in x)
+    return False
+
+
+def yaml_text_sig(c):
+    """known defects of the YAML text layer (outside the model) a yaml case can run into"""
+    if c.get("codec") != "yaml":
+        return None
+    x = c.get("doc", c.get("rv"))
+    if leading_nl(x):
+        return "q_yaml_leading_newline_lost"
+    if has_merge_key(x):
+        return "q_yaml_merge_key_unquoted"
+    if "doc" in c and has_uint64(c["doc"]):
+        return "q_yaml_uint64_wrapped"
+    return None
+
+
+def run_cases(run, vh, cases, shard=120):
     reqs = {"eval": [], "c13wire": [], "c13wiredec": []}
     for c in cases:
         for slot, cmd, rq in sources(c):
@@ -824,6 +1009,11 @@ def main(tier, seed, replay=None):
         key = json.dumps({x: y for x, y in c.items() if x != "id"}, sort_keys=True, ensure_ascii=False)
         checked, nt = impl_oracle(run, c, obs[c["id"]])
         code = results.get(c["id"], "impl" if checked else "skip")
+        if code == "skip" and k == "csv" and csv_ok_py(c["m"]) and c["m"] and obs[c["id"]].get("b") is not None:
+            # the decoder's answer is not even a matrix of strings (or did not arrive) inside the guard
+            run.classify_failure(None, {"case": {x: y for x, y in c.items() if x != "id"}, "observed": obs[c["id"]],
+                                        "oracle": ORACLE["csv"] + " (result is not a matrix of strings)"})
+            continue
         if code == "skip" or code is None or code == 3:
             skipped += 1
             continue
@@ -834,8 +1024,8 @@ def main(tier, seed, replay=None):
         if checked or code == 0:
             continue
         rec = {"case": {x: y for x, y in c.items() if x != "id"}, "observed": obs[c["id"]], "oracle": ORACLE.get(k, k), "model_code": code}
-        if code in (1, 2) and c.get("codec") == "yaml" and leading_nl(c.get("doc", c.get("rv"))):
-            run.classify_failure("q_yaml_leading_newline_lost", rec)       # text layer (yaml.v3 emitter), outside the model
+        if code in (1, 2) and yaml_text_sig(c):
+            run.classify_failure(yaml_text_sig(c), rec)                    # text layer (yaml.v3), outside the model
         elif code == 1:
             if k in CORR_ONLY:
                 run.corr_breaks.append({"what": "implementation differs from the model", **rec})
